@@ -183,6 +183,13 @@ def check_gauge(case):
             c["dSHC_qiao"] = dynamic.SHC(SHC_type="qiao", **dkw)
             c["shc"] = static.SHC(Efermi=Ef, use_factor=False)
             c["dSDCT"] = sdct.SDCT(**dkw)
+            # the eight terms of the composite separately, each restricted to one kind of multipole moment
+            for n in sorted(x for x in dir(sdct) if x.startswith("SDCT_") and ("_sea_" in x or "_surf_" in x)):
+                for tag, terms in (("M1", dict(M1_terms=True, E2_terms=False, V_terms=False)),
+                                   ("E2", dict(M1_terms=False, E2_terms=True, V_terms=False)),
+                                   ("V", dict(M1_terms=False, E2_terms=False, V_terms=True)),
+                                   ("S", dict(M1_terms=False, E2_terms=False, V_terms=False, S_terms=True))):
+                    c[f"d{n}|{tag}"] = getattr(sdct, n)(**terms, **dkw)
             c["tSpinBerry"] = tabulate.SpinBerry()
         # tetrahedron method: first Fermi level just above a multiplet of the centre (the multiplet is split at the
         # corners of the cell, so the level lies between the corner energies of its members)
@@ -208,7 +215,11 @@ def check_gauge(case):
                                   pointgroup=system.pointgroup, refinement_level=0)
             dk = cls(system, grid=grid, dK=k.copy(), Kpoint=Kp, random_gauge=random_gauge)
             U = np.array(dk.UU_K, copy=True)
-            out = {name: np.asarray(c(dk).data) for name, c in calcs().items()}
+            out = {}
+            for name, c in calcs().items():
+                r = c(dk)
+                if hasattr(r, "data"):          # a term that does not exist for a moment kind returns a void result
+                    out[name] = np.asarray(r.data)
         return out, U
 
     base, U0 = evaluate(False, 0)
